@@ -133,6 +133,29 @@ def scan(module):
                 bump(kinds, "global.relocation")
             else:
                 bump(kinds, "global.bytes")
+    blobs = {}        # size -> alignments of blob types in type-carrying positions (everything but alloc / literal)
+
+    def note(ty, where):
+        if isinstance(ty, ir.BlobDataTyp):
+            blobs.setdefault(ty.size, set()).add(ty.alignment)
+            bump(kinds, "blobtype-at." + where)
+    for e in module.externals:
+        if isinstance(e, ir.ExternalSubRoutine):
+            for ty in e.argument_types:
+                note(ty, "external-parameter")
+        if isinstance(e, ir.ExternalFunction):
+            note(e.return_ty, "external-return")
+    for f in module.functions:
+        for p_ in f.arguments:
+            note(p_.ty, "parameter")
+        if isinstance(f, ir.Function):
+            note(f.return_ty, "return")
+        for b in f.blocks:
+            for i in b.instructions:
+                if isinstance(i, ir.Value) and type(i) not in (ir.Alloc, ir.LiteralData):
+                    note(i.ty, type(i).__name__)
+    if any(len(a) > 1 for a in blobs.values()):
+        bump(kinds, "blobtype.same-size-different-alignment")
     for n in all_names(module):
         if not ID_STRICT.match(n):
             trig.add("uscore-name" if ID_USCORE.match(n) else "odd-name")
@@ -363,7 +386,8 @@ def gen_case(r, dials):
     computed by the check from its open findings."""
     cfg = {"kinds": True, "rotates": True, "volatile": True, "undefined": r.random() < 0.3,
            "shape": "mem" if r.random() < 0.2 else "ssa", "size": r.choice([4, 6, 10, 14]),
-           "ptr_size": r.choice([8, 8, 4]), "rpo": r.random() < 0.3, "unsafe": r.random() < 0.1}
+           "ptr_size": r.choice([8, 8, 4]), "rpo": r.random() < 0.3, "unsafe": r.random() < 0.1,
+           "blob_params": r.random() < 0.6}
     cfg.update(dials)
     m, info = irgen.gen_module(r, cfg)
     argv = {fn: irgen.gen_args(r, m, fn, 2) for fn in info["functions"]}
@@ -762,9 +786,66 @@ def directed_selfphi_forward(ty):
     return m
 
 
+def directed_blob_types(order):
+    """Blob types of equal size and different alignment in every position that
+    carries a type: parameters, return types, parameter and return types of
+    externals, phi, call result, undefined, cast; plus allocs of those types
+    passed by value.  ``order`` permutes which alignment is met first."""
+    m = ir.Module("blobtypes")
+    aligns = [[4, 1, 8, 2], [1, 8, 2, 4], [8, 2, 4, 1], [2, 4, 1, 8]][order]
+    t = [ir.BlobDataTyp(8, a) for a in aligns]
+    w = [ir.BlobDataTyp(16, a) for a in aligns]
+    xp = ir.ExternalProcedure("xblobs", [t[1], t[0], w[2]])
+    m.add_external(xp)
+    xf = ir.ExternalFunction("xmake", [ir.i32, t[2]], t[3])
+    m.add_external(xf)
+    # by value in, by value out
+    same, (sp, _) = _fn(m, "same", t[1], [t[1], t[0]])
+    (sb,) = _blocks(same, ["b"])
+    sb.add_instruction(ir.Return(sp))
+    pick, (c, a, b, wa, wb) = _fn(m, "pick", ir.i32, [ir.i32, t[0], t[0], w[0], w[1]])
+    entry, left, right, join = _blocks(pick, ["entry", "left", "right", "join"])
+    zero = ir.Const(0, "zero", ir.i32)
+    entry.add_instruction(zero)
+    und = ir.Undefined("und_box", t[2])
+    entry.add_instruction(und)
+    al = ir.Alloc("tmpbox", 8, aligns[2])
+    entry.add_instruction(al)
+    entry.add_instruction(ir.CJump(c, ">", zero, left, right))
+    left.add_instruction(ir.Jump(join))
+    right.add_instruction(ir.Jump(join))
+    phi = ir.Phi("chosen", t[0])
+    join.add_instruction(phi)
+    phi.set_incoming(left, a)
+    phi.set_incoming(right, b)
+    phi2 = ir.Phi("maybe", t[2])
+    join.add_instruction(phi2)
+    phi2.set_incoming(left, und)
+    phi2.set_incoming(right, al)
+    ad = ir.AddressOf(phi, "chosenp")
+    join.add_instruction(ad)
+    v = ir.Load(ad, "v", ir.i32)
+    join.add_instruction(v)
+    made = ir.FunctionCall(xf, [v, al], "made", t[3])
+    join.add_instruction(made)
+    al1 = ir.Alloc("box1", 8, aligns[1])
+    join.add_instruction(al1)
+    back = ir.FunctionCall(same, [al1, phi], "back", t[1])
+    join.add_instruction(back)
+    cast = ir.Cast(back, "recast", t[0])
+    join.add_instruction(cast)
+    wide = ir.Undefined("und_wide", w[2])
+    join.add_instruction(wide)
+    join.add_instruction(ir.ProcedureCall(xp, [back, cast, wide]))
+    join.add_instruction(ir.Return(v))
+    return m
+
+
 def directed_cases():
     """-> [(case id, build)]"""
     out = [("directed/undefined-phi", directed_undefined_phi)]
+    for order in range(4):
+        out.append(("directed/blob-types/%d" % order, (lambda order=order: directed_blob_types(order))))
     for ty in (ir.u8, ir.i64, ir.f32):
         out.append(("directed/forward/selfphi/%s" % ty.name, (lambda ty=ty: directed_selfphi_forward(ty))))
     for ty in (ir.u8, ir.i32, ir.f64, ir.ptr):
@@ -799,7 +880,11 @@ def behaviour(m1, m2, argv, ptr_size, mon, max_steps=40000):
         return ["reference interpreter could not load a module: %s: %s" % (type(e).__name__, e)]
     for fname, vecs in argv.items():
         for vec in vecs:
-            r1 = i1.run(fname, vec, max_steps=max_steps)
+            try:
+                r1 = i1.run(fname, vec, max_steps=max_steps)
+            except Exception as e:  # noqa -- the reference model cannot run the ORIGINAL: nothing to compare
+                bump(mon["discarded"], "reference interpreter raised on the original: %s" % type(e).__name__)
+                continue
             if r1.status != "ok":
                 key = r1.status + ": " + (r1.reason or "")[:30]
                 bump(mon["discarded"], key)
@@ -1045,14 +1130,17 @@ def required_kinds(avoid_trig, text):
     req += ["global.bytes", "global.relocation", "global.uninitialised", "volatile.load", "volatile.store",
             "external.ExternalVariable", "external.ExternalFunction", "external.ExternalProcedure",
             "callee.direct", "callee.indirect", "function.Function", "function.Procedure", "param.blob",
-            "binding.function.local", "binding.variable.local", "fwdref.Phi", "undefined.phi-input", "store.blob-value"]
+            "binding.function.local", "binding.variable.local", "fwdref.Phi", "undefined.phi-input", "store.blob-value",
+            "blobtype.same-size-different-alignment", "blobtype-at.parameter", "blobtype-at.return",
+            "blobtype-at.external-parameter", "blobtype-at.external-return", "blobtype-at.Phi",
+            "blobtype-at.FunctionCall", "blobtype-at.Undefined", "blobtype-at.Cast"]
     drop = set()
     if "unop~" in avoid_trig:
         drop.add("unop.~")
     if "rotate" in avoid_trig:
         drop |= {"binop.rol", "binop.ror"}
     if "undefined" in avoid_trig:
-        drop |= {"ins.Undefined", "undefined.phi-input"}
+        drop |= {"ins.Undefined", "undefined.phi-input", "blobtype-at.Undefined"}
     if "memcpy" in avoid_trig:
         drop.add("ins.CopyBlob")
     if "inline-asm" in avoid_trig:
